@@ -30,7 +30,7 @@ CHECKS.update({
                 note="trusted: the harness's tree-level MSSM mass matrices and EWSB elimination; tachyon clause inconclusive for |lambda_min| < 1e-9 ||M||", ref="5 C04"),
     "C05": dict(cat="exploration", tech="runtime monitoring: round-trip monitor over on-shell point -> pole spectrum -> perturbed guesses -> convert_to_onshell, with pole-reproduction and parameter-recovery oracles, ASan+UBSan build",
                 text="Each execution of the conversion on a generated SLHA-type model is judged: no warning => both charginos, the bino-like neutralino, the muon sneutrino and the right-like smuon reproduce their pole masses within the requested precision; on the well-conditioned subset the original parameters and a_mu are recovered.",
-                note="trusted: state identification from the mixing matrices; the known right-smuon miss (Yukawa lag) is listed with a behavioural predicate (contracts under re-conversion)", ref="5 C05"),
+                note="trusted: state identification from the mixing matrices; the known right-smuon miss (Yukawa lag) is identified by its mechanism through the hook gm2calc::verif::after_convert_me2 (the fit had converged before the final Yukawa update)", ref="5 C05"),
     "C06": dict(cat="exploration", tech="runtime monitoring: metamorphic monitor over pairs (point, jointly sign-flipped point) for ~75 named quantities, ASan+UBSan build",
                 text="Two models are built from the same on-shell point with and without the joint flip of mu, M1, M2, M3 and all A_f; every public a_mu function, approximation, Delta correction, the resummation factor, uncertainties, coupling arrays and all masses must agree to 1e-9 on the scale rule.",
                 note="trusted: the scale rule of DESIGN 4.1 (sum of absolute one-loop terms)", ref="5 C06"),
@@ -48,7 +48,7 @@ CHECKS.update({
                 note="trusted: calibrated limits (lib/thresholds.py); the literal per-step 0.45 criterion is falsified by correct code at zero crossings and is reported only", ref="5 C10"),
     "C11": dict(cat="exploration", tech="runtime monitoring: path monitor - every contribution, sub-part and sum observed at 23 points along one-parameter paths through coincidence configurations enumerated from the spectrum (THDM) or located by bisection (MSSM); finiteness + 1%-of-chord continuity oracle",
                 text="For each base point all degenerate configurations formed from its masses are enumerated; along each path the values at d = 0, +-1e-13..+-1e-4 must be finite and within 1% of the magnitude (sum of absolute parts for sums) of the chord through d = +-1e-3, or continuous with a kink by the one-sided form; known singular classes carry listed keys.",
-                note="trusted: magnitude of a sum = sum of absolute parts (DESIGN 4.1); uncertainties (functions of |a|) are checked for finiteness only; four listed findings keyed by singular mechanism", ref="5 C11"),
+                note="trusted: magnitude of a sum = sum of absolute parts (DESIGN 4.1); uncertainties (functions of |a|) are checked for finiteness and for a step at the special point; five listed findings keyed by mechanism (four singular configurations, numerical noise of the Yukawa part)", ref="5 C11"),
     "C13": dict(cat="exploration", tech="runtime monitoring: executable reference model of the SLHA reader against the library's filled parameters; metamorphic monitor (layout-preserving rewrites) and rejection monitor on executions of the real gm2calc.x",
                 text="Generated inputs of the three formats and 15-25 layout-preserving rewrites each: the parameters filled by the library's reader must equal those predicted by a sequential last-write-wins model written from README.md; the program's minimal output and exit status must be identical across rewrites; malformed numeric tokens in read blocks and invalid GM2CalcConfig values must give exit 1 with a diagnostic and no physics output, the same tokens in unread blocks no effect.",
                 note="trusted: the reference reader model (lib/slha_model.py); CKM entries at 1e-14; hex floats and '18.0' keys are not generated", ref="5 C13"),
@@ -63,7 +63,7 @@ CHECKS.update({
                 note="trusted: the decision table; five listed findings where force-output cannot override (MW=0, MW=MZ, tan b=inf, undecidable basis, invalid Yukawa type); massless chargino is not reachable through decimal input", ref="5 C16"),
     "C17": dict(cat="exploration", tech="runtime monitoring with sanitizers: random C-API call histories mirrored on C++ objects (differential monitor), exact-size heap buffers under ASan, exception-escape guards",
                 text="Histories of up to 40 C calls (setters with finite and non-finite values, getters, spectrum calls with error codes, amu/uncertainty functions, string getters with length 0..64, print, free, free(NULL); THDM handles with hostile bases and out-of-range enum values) are replayed on a C++ object; every C result must equal the C++ result bit-for-bit or be NaN / the matching error code where C++ throws; nothing may escape or overflow.",
-                note="trusted: ASan/UBSan; indices are always valid; enum values beyond the C++-representable range are not generated", ref="5 C17"),
+                note="trusted: ASan/UBSan; indices are always valid; out-of-range error codes are passed through an int-typed function pointer (the harness never casts them to the enum)", ref="5 C17"),
     "C19": dict(cat="exploration", tech="runtime monitoring: state-digest and repetition monitors (single thread), ThreadSanitizer on a threaded harness (2-16 threads, random yields, shared const models) with bit-exact comparison against a sequential run",
                 text="Each calculation function is observed to leave a byte-wise digest of its model unchanged and to return bit-identical values on repetition, on copies and under permuted evaluation orders; under TSan, concurrent construction and evaluation on own and shared const models must produce no race report and exactly the sequential results; distinct completion orders are counted.",
                 note="trusted: TSan happens-before analysis (only on executed code); a writable-static-symbol listing is recorded as a diagnostic", ref="5 C19"),
@@ -71,6 +71,30 @@ CHECKS.update({
                 text="Wolfenstein/angle inputs incl. boundary and out-of-range values, random MW<MZ and alpha, and running top/bottom/tau masses over six decades of scale are observed: unitarity 1e-14 or rejection, defining relations to 1e-15, finiteness/positivity/monotonicity/composition, boundary values against the reference, a warning exactly when Lambda_QCD cannot be bracketed, and exact bypass when running is disabled.",
                 note="trusted: Eqs.(5),(9) of hep-ph/0207126 as typed in the harness; one listed finding (m_b running above the Landau pole)", ref="5 C20"),
 })
+
+# what the mutation study (DESIGN 9.6) added to each check's workload and oracles
+ADDED = {
+    "C01": " Also: call histories (a negative argument repeated and interleaved with other functions must stay NaN; repeat-determinism), the polylogarithms at k pi, 2^k pi and integers; a non-finite value never counts as one of the known inaccuracies.",
+    "C02": " Also: call histories for all functions, the charged-Higgs mass exactly on a quark threshold, permutation symmetry on a rounding-level tolerance; the known-finding keys are bounded in magnitude.",
+    "C03": " Also: re-used model objects, and the reference forms T_mu = y_mu A_mu from the reported A_mu.",
+    "C04": " Also: a long-lived re-filled object, negative Yukawa couplings, the dedicated getters of the physical Higgs states, gluino and massless states.",
+    "C05": " Also: the setter-driven input path without pole mixing matrices on a fresh and on a long-lived object, all three call forms of convert_to_onshell, a near-degenerate left/right smuon regime, agreement of the report channels (have_warning, get_warnings, convergence records, observed residual).",
+    "C06": " Also: hierarchical points (parameters moved by up to four decades), the twin built on a fresh object / a re-filled copy / a long-lived object, supplied light fermion masses.",
+    "C07": " Also: the family of scaled models built from fresh objects, one object rescaled in place, and rescaled copies of the base point.",
+    "C08": " Also: the derived getters (beta, vevs, fermion mass matrices from Gamma_f and Pi_f with their six mixing matrices).",
+    "C09": " Also: non-zero Delta_f in the type-vs-aligned relation, both relations through the gauge-basis constructor, the same model in both bases.",
+    "C10": " Also: each judged helper evaluation is preceded by one that differs in one group of inputs.",
+    "C11": " Also: a step test at the special point for the uncertainties, MA scanned down to MZ, a parabola criterion for smooth strongly curved sums, numerical noise told from discontinuity by direction reversals.",
+    "C12": " Also: call histories (values-only overload first on an unseen matrix, then the full overload; full overload after an unrelated call).",
+    "C13": " Also: lines reordered inside blocks, configuration entries in another order, unknown keys next to documented ones anywhere in a block, repeated blocks at near scales after the effective ones, reduced files (defaults) read by a reader object that read another file before, rewrites through stdin and without final newline, integer-overflow key tokens.",
+    "C14": " Also: systematic passes over hostile block headers, truncated lines, unreadable files with format-special names, and problem points in every output format with and without force-output.",
+    "C15": " Also: inputs that already carry the result blocks (echo), the configuration block in three shapes (ascending, shuffled, default-valued entries omitted), additivity of the THDM sub-parts.",
+    "C16": " Also: an independent tree-level THDM spectrum as tachyon oracle over random gauge-basis points, undecidable bases from a single lambda of either sign, defects just beyond each boundary, points tachyonic only without tan(beta) resummation, agreement of the THDM report channels.",
+    "C17": " Also: a non-zero handle variable before the THDM constructors, gm2calc_error_str with out-of-range codes.",
+    "C18": " Also: exactly degenerate heavy Higgs states.",
+    "C19": " Also: neighbour histories (a point right after one that differs in exactly one input, SM inputs included), object re-use, a sample of cases repeated in processes of their own (digest of all results), hard conversion points (root-finder fallback) in the sequential and threaded runs.",
+    "C20": " Also: a variable reference scale with one-argument-different call histories, all twelve Yukawa getters in the bypass monitor with Higgs scales down to 1 GeV.",
+}
 
 PENDING = {}
 
@@ -90,7 +114,7 @@ def main():
                 evidence_file="/verif/evidence/%s.json" % pid,
                 replay_cmd_template="./vcheck %s --replay {path}" % pid,
                 engine="vcheck",
-                level_claimed=dict(category=c["cat"], text=c["text"], design_ref="DESIGN.md section " + c["ref"]),
+                level_claimed=dict(category=c["cat"], text=c["text"] + ADDED.get(pid, ""), design_ref="DESIGN.md section " + c["ref"] + " and 9.6"),
                 level_note=c["note"],
                 technique=c["tech"]))
         else:
